@@ -21,8 +21,40 @@ CUTS = {
 }
 
 
+def _inside_trimesh_cut(orig):
+    """mask_inside_trimesh(points (n,3), faces (nf,3,3)) -> one uninterpreted predicate per row"""
+    from symnum.core import ufpred
+    from symnum.arr import has_sym
+
+    def conc(*a):
+        pts = np.array(a[:3], dtype=float).reshape(1, 3)
+        faces = np.array(a[3:], dtype=float).reshape(-1, 3, 3)
+        return bool(orig(pts, faces)[0])
+
+    CTX.concrete_funcs["insideTM"] = conc
+
+    def stub(points, faces):
+        if not (has_sym(points) or has_sym(faces)):
+            return orig(points, faces)
+        pts = oarr(points)
+        fl = list(oarr(faces).ravel())
+        out = np.empty(len(pts), dtype=object)
+        for i in range(len(pts)):
+            out[i] = ufpred("insideTM", list(pts[i]) + fl)
+        return out.view(SymArray)
+
+    stub.__name__ = "cut_insideTM"
+    return stub
+
+
 def apply_cuts(names):
     for nm in names:
+        if nm == "insideTM":
+            modname, attr = F + "field_BH_triangularmesh", "mask_inside_trimesh"
+            orig = install.original(modname, attr)
+            if not getattr(orig, "__name__", "").startswith("cut_"):
+                install.patch(modname, attr, _inside_trimesh_cut(orig))
+            continue
         modname, attr, kind, argnames = CUTS[nm]
         orig = install.original(modname, attr)
         if getattr(orig, "__name__", "").startswith("cut_"):
@@ -150,6 +182,8 @@ WRAPPERS = {
                          cuts=("segH", "cel", "ellipe", "ellipk"), magnet=True, excitation="polarization"),
     "tetra": W("tetra", F + "field_BH_tetrahedron", "BHJM_magnet_tetrahedron", [("observers", (3,)), ("vertices", (4, 3)), ("polarization", (3,))],
                _pre_tetra, cuts=("triB",), magnet=True, excitation="polarization", lengths=("observers", "vertices")),
+    "trimesh": W("trimesh", F + "field_BH_triangularmesh", "BHJM_magnet_trimesh", [("observers", (3,)), ("mesh", (4, 3, 3)), ("polarization", (3,))],
+                 _pre_none, cuts=("triB", "insideTM"), magnet=True, excitation="polarization", extra_kw={"in_out": "auto"}, lengths=("observers", "mesh")),
     "triangle": W("triangle", F + "field_BH_triangle", "BHJM_triangle", [("observers", (3,)), ("vertices", (3, 3)), ("polarization", (3,))],
                   _pre_tri, cuts=("triB",), excitation="polarization", lengths=("observers", "vertices")),
     "circle": W("circle", F + "field_BH_circle", "BHJM_circle", [("observers", (3,)), ("diameter", ()), ("current", ())],
@@ -160,3 +194,13 @@ WRAPPERS = {
     "dipole": W("dipole", F + "field_BH_dipole", "BHJM_dipole", [("observers", (3,)), ("moment", (3,))], _pre_none,
                 excitation="moment", lengths=("observers",)),
 }
+
+
+def tetra_mesh(v, shift=(0, 0, 0), scale=1.0):
+    """outward-oriented faces (4,3,3) of the tetrahedron with vertices v (positive chirality expected)"""
+    v = (np.array(v, dtype=float) * scale) + np.array(shift, dtype=float)
+    idx = [(0, 2, 1), (0, 1, 3), (1, 2, 3), (0, 3, 2)]
+    return np.array([[v[i] for i in f] for f in idx])
+
+
+UNIT_TETRA = [(0, 0, 0), (1, 0, 0), (0, 1, 0), (0, 0, 1)]
